@@ -58,10 +58,73 @@ Inductive case : Type :=
 | CMatch (l : layout) (img : list piece) (segs : list segment) (r : obs bool)
 (* StitchFITEntries(file, acm, bpm, km): error?, length and differences of the file afterwards *)
 | CStitch (l : layout) (img : list piece) (fit : option (list fit_entry)) (acm bpm km : list Z)
-          (ok : bool) (len_after : Z) (diffs : list (Z * list Z)).
+          (ok : bool) (len_after : Z) (diffs : list (Z * list Z))
+(* a sequence of calls on ONE BootGuard object (manifest generation ver) that starts with the
+   given segment lists (one per SE element) and digest algorithms; every step: the call, what
+   it returned, and the object afterwards (segment lists, digest list as fingerprints of the
+   hashed bytes).  Images are given once and referred to by position. *)
+| CSeq (ver : Z) (imgs : list (layout * list piece)) (segs0 : list (list segment)) (algs0 : list Z)
+       (steps : list (cop * snapshot))
+
+with cop : Type :=
+| KSetSegs (se : Z) (segs : list segment)
+| KSetAlgs (algs : list Z)
+| KCreateSegs (se flags : Z) (fit : option (list fit_entry)) (r : obs unit)
+| KCreateSegsCbfs (se flags file_size cbfs_off : Z) (files : list cbfs_file) (r : obs unit)
+| KGetDigest (alg : Z) (img : nat) (r : obs (Z * Z))
+| KCreateDigest (img : nat) (r : obs unit)
+| KMatch (img : nat) (r : obs bool)
+
+with snapshot : Type :=
+| Snap (segs : list (list segment)) (digs : list (Z * (Z * Z))).
 
 Definition map_outcome {A B} (f : A -> B) (o : outcome A) : outcome B :=
   match o with Ok a => Ok (f a) | Err c => Err c | Panic => Panic | OutOfFuel => OutOfFuel end.
+
+(** fingerprint of a stored digest: (-1, 0) for a buffer the model did not produce *)
+Definition fp_stored (d : option (list Z)) : Z * Z :=
+  match d with Some p => fp p | None => (-1, 0) end.
+
+Definition snap_ok (s : snapshot) (st : bg_state) : bool :=
+  match s with
+  | Snap segs digs =>
+      list_eqb (list_eqb seg_eqb) segs (bg_segs st) &&
+      list_eqb afp_eqb digs (map (fun ad => (fst ad, fp_stored (snd ad))) (bg_digs st))
+  end.
+
+Definition unit_eqb (a b : unit) : bool := true.
+
+Definition image_at (imgs : list (layout * list Z)) (k : nat) : layout * list Z := nth k imgs (LNone, []).
+
+(** the operation of a step and whether the model's result is what was observed *)
+Definition cop_op (imgs : list (layout * list Z)) (k : cop) : op :=
+  match k with
+  | KSetSegs i s => OSetSegs i s
+  | KSetAlgs a => OSetAlgs a
+  | KCreateSegs i f fit _ => OCreateSegs i f fit
+  | KCreateSegsCbfs i f fs co files _ => OCreateSegsCbfs i f fs co files
+  | KGetDigest alg n _ => OGetDigest alg (fst (image_at imgs n)) (snd (image_at imgs n))
+  | KCreateDigest n _ => OCreateDigest (fst (image_at imgs n)) (snd (image_at imgs n))
+  | KMatch n _ => OMatch (snd (image_at imgs n))
+  end.
+
+Definition result_ok (k : cop) (r : result) : bool :=
+  match k, r with
+  | KSetSegs _ _, RNone | KSetAlgs _, RNone => true
+  | KCreateSegs _ _ _ o, RUnit m | KCreateSegsCbfs _ _ _ _ _ o, RUnit m | KCreateDigest _ o, RUnit m =>
+      obs_match unit_eqb o m
+  | KGetDigest _ _ o, RDigest m => obs_match fp_eqb o (map_outcome (fun p => fp (snd p)) m)
+  | KMatch _ o, RBool m => obs_match Bool.eqb o m
+  | _, _ => false
+  end.
+
+Fixpoint run_check (ver : Z) (imgs : list (layout * list Z)) (st : bg_state) (steps : list (cop * snapshot)) : bool :=
+  match steps with
+  | [] => true
+  | (k, s) :: t =>
+      let '(st', r) := step ver st (cop_op imgs k) in
+      result_ok k r && snap_ok s st' && run_check ver imgs st' t
+  end.
 
 Definition check (c : case) : bool :=
   match c with
@@ -79,6 +142,9 @@ Definition check (c : case) : bool :=
       let i := expand img in
       let '(f, k) := stitch l i fit acm bpm km in
       Bool.eqb k ok && (zlen f =? len_after) && zlist_eqb f (apply_diffs i diffs)
+  | CSeq ver imgs segs0 algs0 steps =>
+      run_check ver (map (fun lp => (fst lp, expand (snd lp))) imgs)
+                (mkBG segs0 (map (fun a => (a, None)) algs0)) steps
   end.
 
 Definition mismatches := mismatches_by check.
